@@ -191,6 +191,11 @@ def handle (j : Json) : Except String Json := do
       | .num q => [("fo", ratJ (fractionOfNumber small q))]
       | _ => []
     pure (Json.mkObj [("ok", Json.mkObj (fields ++ fo))])
+  | "badrows" =>
+    -- rows of the database that are not well-formed (the hypothesis `AllWF` of the order theorems)
+    let db ← dbOf (← getStr j "db")
+    let bad := db.units.filter (fun r => !r.wf)
+    pure (Json.mkObj [("rows", Json.arr (bad.map (fun r => symJ r.sym)).toArray)])
   | "fracof" =>
     let small ← getRat j "small"
     let q ← getRat j "q"
